@@ -6,4 +6,7 @@ cd "$(dirname "$0")"
 /venv/bin/python -c 'import hypothesis' 2>/dev/null || \
   /venv/bin/pip install --no-index --find-links /opt/veriftools/wheels hypothesis >/dev/null
 /venv/bin/python -c 'import hypothesis; print("hypothesis", hypothesis.__version__)'
+# atheris is only used by the thorough tier of C10/C12; its absence is tolerated (campaigns are then skipped and counted)
+/venv/bin/python -c 'import sys; sys.path.append(".deps"); import atheris' 2>/dev/null || \
+  /venv/bin/pip install --no-index --find-links /opt/veriftools/wheels --target .deps atheris >/dev/null 2>&1 || echo 'atheris not installable (thorough-tier campaigns will be skipped)'
 /venv/bin/python selftest/run.py
